@@ -136,17 +136,33 @@ theorem sp_step (rest : List Char) (hn : nextNot isSpace rest.head? = true) :
 theorem len_sub4 (n : Nat) : n + 1 + 1 + 1 + 1 - n = 4 := by omega
 theorem len_sub5 (n : Nat) : n + 1 + 1 + 1 + 1 + 1 - n = 5 := by omega
 
-theorem true_step (rest : List Char) :
+/-- `True\b`: the constant, when no word character follows -/
+theorem true_step (rest : List Char) (hn : nextNot isWord rest.head? = true) :
     firstC rulesC (['T', 'r', 'u', 'e'] ++ rest) = some ("True", 4) := by
-  simp [rulesC, firstC, lenOf, litM, kwM, boundary, olen, floatLen, firstNZ, imagLen, seqLen,
-    imagItem, float1M, float2M, float3M, float4M, float5M, plusM, identM, wsM, isDigit,
-    isIdStart, isAlpha, isSpace, List.dropWhile, len_sub4, len_sub5]
+  cases rest with
+  | nil =>
+    simp [rulesC, firstC, lenOf, litM, kwM, boundary, olen, floatLen, firstNZ, imagLen, seqLen,
+      imagItem, float1M, float2M, float3M, float4M, float5M, plusM, identM, wsM, isDigit,
+      isIdStart, isAlpha, isSpace, List.dropWhile, len_sub4, len_sub5]
+  | cons c r =>
+    simp only [List.head?_cons, nextNot, Bool.not_eq_true'] at hn
+    simp [rulesC, firstC, lenOf, litM, kwM, boundary, olen, floatLen, firstNZ, imagLen, seqLen,
+      imagItem, float1M, float2M, float3M, float4M, float5M, plusM, identM, wsM, isDigit,
+      isIdStart, isAlpha, isSpace, List.dropWhile, len_sub4, len_sub5, hn]
 
-theorem false_step (rest : List Char) :
+/-- `False\b` -/
+theorem false_step (rest : List Char) (hn : nextNot isWord rest.head? = true) :
     firstC rulesC (['F', 'a', 'l', 's', 'e'] ++ rest) = some ("False", 5) := by
-  simp [rulesC, firstC, lenOf, litM, kwM, boundary, olen, floatLen, firstNZ, imagLen, seqLen,
-    imagItem, float1M, float2M, float3M, float4M, float5M, plusM, identM, wsM, isDigit,
-    isIdStart, isAlpha, isSpace, List.dropWhile, len_sub4, len_sub5]
+  cases rest with
+  | nil =>
+    simp [rulesC, firstC, lenOf, litM, kwM, boundary, olen, floatLen, firstNZ, imagLen, seqLen,
+      imagItem, float1M, float2M, float3M, float4M, float5M, plusM, identM, wsM, isDigit,
+      isIdStart, isAlpha, isSpace, List.dropWhile, len_sub4, len_sub5]
+  | cons c r =>
+    simp only [List.head?_cons, nextNot, Bool.not_eq_true'] at hn
+    simp [rulesC, firstC, lenOf, litM, kwM, boundary, olen, floatLen, firstNZ, imagLen, seqLen,
+      imagItem, float1M, float2M, float3M, float4M, float5M, plusM, identM, wsM, isDigit,
+      isIdStart, isAlpha, isSpace, List.dropWhile, len_sub4, len_sub5, hn]
 
 /-! ### integers -/
 
@@ -312,7 +328,7 @@ def kwHit (kw cs : List Char) : Bool :=
 def reserved (cs : List Char) : Bool :=
   kwHit ['a', 'n', 'd'] cs || kwHit ['o', 'r'] cs || kwHit ['n', 'o', 't'] cs ||
   kwHit ['i', 'f'] cs || kwHit ['e', 'l', 's', 'e'] cs ||
-  (litM ['T', 'r', 'u', 'e'] cs).isSome || (litM ['F', 'a', 'l', 's', 'e'] cs).isSome
+  kwHit ['T', 'r', 'u', 'e'] cs || kwHit ['F', 'a', 'l', 's', 'e'] cs
 
 /-- the text is lexed as ONE identifier: it matches the identifier rule and no earlier rule -/
 def identOk : List Char → Bool
@@ -370,7 +386,7 @@ theorem ident_step {c : Char} {r rest : List Char} (hok : identOk (c :: r) = tru
     (hn : nextNot isIdCont rest.head? = true) :
     firstC rulesC (c :: r ++ rest) = some ("identifier", (c :: r).length) := by
   simp only [identOk, Bool.and_eq_true, List.all_eq_true, Bool.not_eq_true', reserved,
-    Bool.or_eq_false_iff, Option.isSome_eq_false_iff, Option.isNone_iff_eq_none] at hok
+    Bool.or_eq_false_iff] at hok
   obtain ⟨⟨hc, hr⟩, ⟨⟨⟨⟨⟨h1, h2⟩, h3⟩, h4⟩, h5⟩, h6⟩, h7⟩ := hok
   have hf : floatLen (c :: (r ++ rest)) = 0 := floatLen_head (idStart_not_digit hc) (idStart_ne_dot hc)
   have e1 := lenOf_none (kwM_ext (rest := rest) (by decide) hn h1)
@@ -378,10 +394,8 @@ theorem ident_step {c : Char} {r rest : List Char} (hok : identOk (c :: r) = tru
   have e3 := lenOf_none (kwM_ext (rest := rest) (by decide) hn h3)
   have e4 := lenOf_none (kwM_ext (rest := rest) (by decide) hn h4)
   have e5 := lenOf_none (kwM_ext (rest := rest) (by decide) hn h5)
-  have e6 : lenOf (litM ['T', 'r', 'u', 'e']) (c :: r ++ rest) = 0 :=
-    lenOf_none (by rw [litM_ext _ _ _ (by decide) hn, h6]; rfl)
-  have e7 : lenOf (litM ['F', 'a', 'l', 's', 'e']) (c :: r ++ rest) = 0 :=
-    lenOf_none (by rw [litM_ext _ _ _ (by decide) hn, h7]; rfl)
+  have e6 := lenOf_none (kwM_ext (rest := rest) (by decide) hn h6)
+  have e7 := lenOf_none (kwM_ext (rest := rest) (by decide) hn h7)
   have hi : lenOf identM (c :: (r ++ rest)) = r.length + 1 := by
     have : identM ((c :: r) ++ rest) = some rest := by
       simp [identM, hc, dropWhile_append_stop hr hn]
